@@ -177,7 +177,7 @@ def check_minified(prog, src, config, res, fam, obj, out, light=False):
         k = 0
         for t in prog.toks:
             idx.append(k)
-            k += 3 if t.cls == 'LABEL' else 1
+            k += 3 if t.cls.startswith('LABEL') else 1
         lines = [t.line for t in outsig]
         for (f, l) in prog.scopes:
             fi, li = idx[f], idx[l]
